@@ -1,5 +1,295 @@
 package main
 
-import "verifharness/mbt"
+// (V) for C40: concurrent callers of the real CListMempool; call/return events are written as NDJSON
+// for spec/MempoolTrace.tla. The scripted application rejects the txs in `bad`; the committer changes
+// `bad` while it holds the mempool lock (as an application's state only changes at Commit).
+// The callers stay inside the part of the contract that the unchanged tree honours (see the header
+// of Mempool.tla): limits are not changed by Update, the cache holds every tx id, ReapMaxTxs(-1).
 
-func concurrent(f *mbt.Flags, c *consts) { mbt.Die("conc mode not built yet") }
+import (
+	"bufio"
+	"encoding/json"
+	"fmt"
+	"math/rand"
+	"os"
+	"runtime"
+	"sort"
+	"sync"
+	"sync/atomic"
+	"time"
+
+	abci "github.com/gnolang/gno/tm2/pkg/bft/abci/types"
+	"github.com/gnolang/gno/tm2/pkg/bft/types"
+
+	"verifharness/mbt"
+)
+
+type cev struct {
+	Seq       int64             `json:"-"`
+	Act       string            `json:"act"`
+	Run       int               `json:"run,omitempty"`
+	ID        int               `json:"id,omitempty"`
+	Op        string            `json:"op,omitempty"`
+	Tx        string            `json:"tx,omitempty"`
+	Committed *[]map[string]any `json:"committed,omitempty"`
+	Bad       *[]string         `json:"bad,omitempty"`
+	B         int               `json:"b"`
+	G         int               `json:"g"`
+	N         int               `json:"n"`
+	R         string            `json:"r"`
+	Txs       []string          `json:"txs"`
+	Bytes     int               `json:"bytes"`
+	Gor       int               `json:"gor,omitempty"`
+}
+
+type crun struct {
+	e     *env
+	seq   int64
+	opid  int64
+	bufs  [][]cev
+	fmu   sync.Mutex
+	fail  string
+	failK string
+}
+
+func (r *crun) failed() bool { r.fmu.Lock(); defer r.fmu.Unlock(); return r.fail != "" }
+
+func (r *crun) call(g int, c cev, fn func() (string, []string)) bool {
+	if r.failed() {
+		return false
+	}
+	c.Act, c.ID, c.Gor = "Call", int(atomic.AddInt64(&r.opid, 1)), g
+	c.Seq = atomic.AddInt64(&r.seq, 1)
+	if c.Txs == nil {
+		c.Txs = []string{}
+	}
+	r.bufs[g] = append(r.bufs[g], c)
+	ci := len(r.bufs[g]) - 1
+	var reply string
+	var txs []string
+	p, pv, st := mbt.Guard(func() { reply, txs = fn() })
+	if p {
+		r.fmu.Lock()
+		if r.fail == "" {
+			r.fail = fmt.Sprintf("%s panicked: %.300v at %s", c.Op, pv, mbt.ShortStack(st))
+			r.failK = "C40:conc:" + c.Op + ":panic"
+		}
+		r.fmu.Unlock()
+		return false
+	}
+	if txs == nil {
+		txs = []string{}
+	}
+	// the Call line also carries the eventual reply: a pruning hint for the linearisation search
+	// (a linearisation point whose reply differs can never be matched by the Ret line)
+	r.bufs[g][ci].R, r.bufs[g][ci].Txs = reply, txs
+	r.bufs[g] = append(r.bufs[g], cev{Seq: atomic.AddInt64(&r.seq, 1), Act: "Ret", ID: c.ID, R: reply, Txs: txs, Gor: g})
+	return true
+}
+
+func (r *crun) events() []cev {
+	var all []cev
+	for _, b := range r.bufs {
+		all = append(all, b...)
+	}
+	sort.Slice(all, func(i, j int) bool { return all[i].Seq < all[j].Seq })
+	return all
+}
+
+func concRun(c *consts, rng *rand.Rand) (*crun, bool) {
+	const nCheck = 3
+	ng := nCheck + 2
+	r := &crun{e: newEnv(c), bufs: make([][]cev, ng)}
+	idsAll := make([]string, 0, len(c.Sizes))
+	for id := range c.Sizes {
+		idsAll = append(idsAll, id)
+	}
+	sort.Strings(idsAll)
+	// scripted app: verdict = id not in bad (both for first checks and rechecks)
+	setBad := func(bad map[string]bool) {
+		r.e.app.mtx.Lock()
+		r.e.app.recheckBad = bad
+		r.e.app.nextOK = map[string]bool{}
+		for id := range bad {
+			r.e.app.nextOK[id] = false
+		}
+		r.e.app.mtx.Unlock()
+	}
+	setBad(map[string]bool{})
+	seeds := make([]int64, ng)
+	for i := range seeds {
+		seeds[i] = rng.Int63()
+	}
+	start := make(chan struct{})
+	var wg sync.WaitGroup
+	for g := 0; g < nCheck; g++ {
+		wg.Add(1)
+		go func(g int) {
+			defer wg.Done()
+			lr := rand.New(rand.NewSource(seeds[g]))
+			<-start
+			for i := 0; i < 6; i++ {
+				id := idsAll[lr.Intn(len(idsAll))]
+				if !r.call(g, cev{Op: "CheckTx", Tx: id}, func() (string, []string) {
+					reply, p, pv, _ := checkTxConc(r.e, id)
+					if p {
+						panic(pv)
+					}
+					return reply, nil
+				}) {
+					return
+				}
+				if lr.Intn(2) == 0 {
+					runtime.Gosched()
+				}
+			}
+		}(g)
+	}
+	wg.Add(1)
+	go func(g int) { // committer, as BlockExecutor.Commit: Lock; FlushAppConn; (app commits); Update; Unlock
+		defer wg.Done()
+		lr := rand.New(rand.NewSource(seeds[g]))
+		<-start
+		for h := int64(1); h <= 3; h++ {
+			for k := 0; k < 1+lr.Intn(3); k++ {
+				runtime.Gosched()
+			}
+			perm := lr.Perm(len(idsAll))
+			var committed []map[string]any
+			var txs types.Txs
+			var res []abci.ResponseDeliverTx
+			for _, j := range perm[:lr.Intn(3)] {
+				ok := lr.Intn(4) != 0
+				committed = append(committed, map[string]any{"tx": idsAll[j], "ok": ok})
+				txs = append(txs, mkTx(c, idsAll[j]))
+				rr := abci.ResponseDeliverTx{}
+				if !ok {
+					rr.Error = abci.StringError("scripted: failed in block")
+				}
+				res = append(res, rr)
+			}
+			bad := map[string]bool{}
+			var badL []string
+			for _, id := range idsAll {
+				if lr.Intn(4) == 0 {
+					bad[id] = true
+					badL = append(badL, id)
+				}
+			}
+			if committed == nil {
+				committed = []map[string]any{}
+			}
+			if badL == nil {
+				badL = []string{}
+			}
+			if !r.call(g, cev{Op: "Update", Committed: &committed, Bad: &badL}, func() (string, []string) {
+				r.e.mem.Lock()
+				defer r.e.mem.Unlock()
+				_ = r.e.mem.FlushAppConn()
+				setBad(bad) // the application's state changes at Commit, under the mempool lock
+				if err := r.e.mem.Update(h, txs, res, nil, 0); err != nil {
+					return "err:" + err.Error(), nil
+				}
+				return "ok", nil
+			}) {
+				return
+			}
+		}
+	}(nCheck)
+	wg.Add(1)
+	go func(g int) { // reaper
+		defer wg.Done()
+		lr := rand.New(rand.NewSource(seeds[g]))
+		<-start
+		bs, gs := []int{-1, 1, 3, 5}, []int{-1, 0, 2, 4}
+		for i := 0; i < 6; i++ {
+			if lr.Intn(3) == 0 {
+				if !r.call(g, cev{Op: "ReapMaxTxs", N: -1}, func() (string, []string) { return "", ids(r.e.mem.ReapMaxTxs(-1)) }) {
+					return
+				}
+			} else {
+				b, gg := bs[lr.Intn(4)], gs[lr.Intn(4)]
+				if !r.call(g, cev{Op: "ReapMaxBytesMaxGas", B: b, G: gg}, func() (string, []string) {
+					return "", ids(r.e.mem.ReapMaxBytesMaxGas(int64(b), int64(gg)))
+				}) {
+					return
+				}
+			}
+			runtime.Gosched()
+		}
+	}(nCheck + 1)
+	close(start)
+	done := make(chan struct{})
+	go func() { wg.Wait(); close(done) }()
+	select {
+	case <-done:
+		return r, true
+	case <-time.After(30 * time.Second):
+		return r, false
+	}
+}
+
+// checkTxConc: like env.checkTx, but the verdict is the application's own (bad set)
+func checkTxConc(e *env, id string) (reply string, panicked bool, pval any, stack string) {
+	var cbRes abci.Response
+	var err error
+	panicked, pval, stack = mbt.Guard(func() {
+		err = e.mem.CheckTx(mkTx(e.c, id), func(r abci.Response) { cbRes = r })
+	})
+	if panicked {
+		return
+	}
+	reply = classifyCheckTx(err, cbRes)
+	return
+}
+
+func concurrent(f *mbt.Flags, c *consts) {
+	if f.Out == "" {
+		mbt.Die("-out required")
+	}
+	n := f.N
+	if n == 0 {
+		n = 50
+	}
+	out, err := os.Create(f.Out)
+	if err != nil {
+		mbt.Die("%v", err)
+	}
+	w := bufio.NewWriterSize(out, 1<<20)
+	enc := json.NewEncoder(w)
+	rng := rand.New(rand.NewSource(f.Seed*104729 + 5))
+	runs, events, ops, hung := 0, 0, 0, 0
+	for i := 0; i < n; i++ {
+		r, ok := concRun(c, rng)
+		if r.failed() {
+			mbt.Mismatch(r.failK, r.fail, map[string]any{"consts": c, "mode": "conc", "seed": f.Seed, "events": r.events()})
+			break
+		}
+		if !ok {
+			// callers of a mempool never block for ever; reported as a suspect, decided by the check
+			mbt.Emit(map[string]any{"kind": "suspect", "run": i + 1, "events": r.events()})
+			hung++
+			break
+		}
+		runs++
+		enc.Encode(cev{Act: "Reset", Run: runs, Txs: []string{}})
+		evs := r.events()
+		for _, e := range evs {
+			enc.Encode(e)
+			if e.Act == "Call" {
+				ops++
+			}
+		}
+		p, bad := r.e.project()
+		if bad != "" {
+			mbt.Mismatch("C40:conc:state", bad, map[string]any{"consts": c, "mode": "conc", "seed": f.Seed, "events": evs})
+			break
+		}
+		enc.Encode(cev{Act: "Final", Txs: p.Pool, Bytes: p.Bytes})
+		events += len(evs) + 2
+	}
+	w.Flush()
+	out.Close()
+	mbt.Summary(map[string]any{"runs": runs, "events": events, "ops": ops, "suspects": hung})
+	mbt.Flush()
+}
